@@ -131,7 +131,8 @@ def do_harmless(ids, props=None):
             out['tests'] = t.stdout.strip().split('\n')[-1]
             env = dict(os.environ, YLD_REPO_SRC=wt + '/src', VF_WORK='/tmp/vf-work-seed-%d' % os.getpid(), VF_EVIDENCE_DIR='/tmp/vf-evidence-seed-%d' % os.getpid(),
                        VF_STANDIN_SCALE=os.environ.get('VF_STANDIN_SCALE', '0.15'))
-            touched = {os.path.basename(l[6:]).replace('.py', '') for l in open(os.path.join(d, 'patch.diff')) if l.startswith('+++ b/')}
+            touched = {os.path.basename(l[6:].split('\t')[0].strip()).replace('.py', '') for l in open(os.path.join(d, 'patch.diff'))
+                       if l.startswith('+++ b/')}
             for p in allp:
                 if not props and reads.get(p) and not (reads[p] & touched):
                     out['checks'][p] = dict(exit=0, lines=[], skipped='reads none of the rewritten modules %s' % sorted(touched))
